@@ -94,12 +94,15 @@ class Core:
                        'usc': bool(core.cfg.dis.use_site_contravariance)}
             except Exception as e:
                 core.out.skip('monitor-pre-failed:' + type(e).__name__)
+            core.depth = getattr(core, 'depth', 0) + 1
             try:
                 r = f_itc(type_constructor, types, only_regular, type_var_map, variance_choices, enable_pecs,
                           disable_variance_functions, disable_variance)
             except BaseException:
                 core.out.ev('raised:instantiate_type_constructor')
                 raise
+            finally:
+                core.depth -= 1
             core.out.ev('calls:instantiate_type_constructor')
             if pre is not None:
                 try:
@@ -129,11 +132,14 @@ class Core:
                        'usc': bool(core.cfg.dis.use_site_contravariance)}
             except Exception as e:
                 core.out.skip('monitor-pre-failed:' + type(e).__name__)
+            core.depth = getattr(core, 'depth', 0) + 1
             try:
                 r = f_ipf(type_parameters, types, only_regular, type_var_map)
             except BaseException:
                 core.out.ev('raised:instantiate_parameterized_function')
                 raise
+            finally:
+                core.depth -= 1
             core.out.ev('calls:instantiate_parameterized_function')
             if pre is not None:
                 try:
@@ -151,6 +157,54 @@ class Core:
                     core.out.skip('monitor-post-failed:' + type(e).__name__)
             return r
         tu.instantiate_parameterized_function = instantiate_parameterized_function
+        # direct calls of the inner helper (the generator instantiates a class together with one of its
+        # generic methods this way); calls made by the two public helpers above are theirs, not judged twice
+        f_ctva = tu._compute_type_variable_assignments
+        core.depth = 0
+
+        def _compute_type_variable_assignments(type_parameters, types, type_var_map=None, variance_choices=None,
+                                               for_type_constructor=True):
+            if core.depth:
+                return f_ctva(type_parameters, types, type_var_map, variance_choices, for_type_constructor)
+            pre = None
+            try:
+                params = param_terms(type_parameters)
+                vc = None if variance_choices is None else {str(k.name): tuple(v) for k, v in variance_choices.items()}
+                pre = {'kind': 'ctva', 'ctor': '<class+method>', 'params': params,
+                       'pre': own_assignments(type_parameters, type_var_map),
+                       'in_wild': wildcard_ids(list((type_var_map or {}).values()) + [
+                           t for t in types if hasattr(t, 'is_wildcard')]),
+                       'vc': vc if for_type_constructor else None,
+                       'usv': bool(core.cfg.dis.use_site_variance),
+                       'usc': bool(core.cfg.dis.use_site_contravariance)}
+            except Exception as e:
+                core.out.skip('monitor-pre-failed:' + type(e).__name__)
+            core.depth += 1
+            try:
+                r = f_ctva(type_parameters, types, type_var_map, variance_choices, for_type_constructor)
+            except BaseException:
+                core.out.ev('raised:_compute_type_variable_assignments')
+                raise
+            finally:
+                core.depth -= 1
+            core.out.ev('calls:_compute_type_variable_assignments(direct)')
+            if pre is not None:
+                try:
+                    t_args, m = r
+                    vals = [m.get(p_) for p_ in type_parameters]
+                    pre['args'] = [terms.to_term(a) if a is not None else ('none',) for a in vals]
+                    pre['arg_prim'] = [bool(getattr(a, 'primitive', False)) for a in vals]
+                    pre['arg_new_wild'] = [a is not None and hasattr(a, 'is_wildcard') and a.is_wildcard()
+                                           and id(a) not in pre['in_wild'] for a in vals]
+                    pre['map'] = own_assignments(type_parameters, m)
+                    pre['fullmap'] = {str(k.name): terms.to_term(v) for k, v in m.items()}
+                    pre['objs'] = [a for a in vals if a is not None]
+                    pre['result'] = None
+                    core.records.append(pre)
+                except Exception as e:
+                    core.out.skip('monitor-post-failed:' + type(e).__name__)
+            return r
+        tu._compute_type_variable_assignments = _compute_type_variable_assignments
 
 
 def strip_cov(a):
@@ -313,6 +367,68 @@ def judge(rec, T, out, witness):
         out.ok(shape, nontrivial=any(p[2] is not None or p[1] != INV for p in params) or bool(rec['pre']))
 
 
+def _generator_path(cell, spec, lab, generic, rng, core, out, U):
+    """The generator's own route into the inner helper: Generator._get_matching_class instantiates a
+    generic class TOGETHER with a generic method of it by calling _compute_type_variable_assignments
+    with a pool it assembles itself.  Driven on the spec's real class declarations."""
+    from src.ir import ast, types as tp, context as ctxmod
+    from src import utils
+    from src.generators.config import cfg
+    try:
+        from src.generators.generator import Generator
+    except Exception as e:                       # pragma: no cover
+        out.skip('generator-import-failed:' + type(e).__name__)
+        return
+    lang = cell['lang']
+    ret_t = lab.f.get_string_type()
+    saved = {}
+    try:
+        gen = Generator(language=lang)
+        gen.context = ctxmod.Context()
+        for name, d in lab.decls.items():
+            gen.context.add_class(ast.GLOBAL_NAMESPACE, name, d)
+        gen.namespace = ast.GLOBAL_NAMESPACE + ('main',)
+        for it in range(cell.get('gen_iters', 6)):
+            c = rng.choice(generic)
+            decl = lab.decls[c['name']]
+            fparams = []
+            for j in range(rng.randint(1, 2)):
+                b = None
+                r = rng.random()
+                if r < 0.3 and U:
+                    b = lab.real(rng.choice(U))
+                elif r < 0.45 and fparams:
+                    b = fparams[0]
+                elif r < 0.6 and decl.type_parameters:
+                    b = rng.choice(decl.type_parameters)
+                fparams.append(tp.TypeParameter('F_X%d' % j, tp.Invariant, b))
+            fn = ast.FunctionDeclaration('vfm%d' % it, params=[], ret_type=ret_t, body=ast.StringConstant('x'),
+                                         func_type=ast.FunctionDeclaration.CLASS_METHOD, type_parameters=fparams)
+            saved[c['name']] = list(decl.functions)
+            decl.functions = [fn]
+            cfg.dis.use_site_variance = rng.random() < 0.25
+            cfg.dis.use_site_contravariance = rng.random() < 0.25
+            for k in range(cell.get('gen_seeds', 4)):
+                utils.random.r.seed(common.h32(cell['rseed'], 'gp', it, k))
+                core.records = []
+                out.ev('generator-path:calls')
+                try:
+                    gen._get_matching_class(ret_t, subtype=False, attr_name='functions')
+                except Exception as e:
+                    out.skip('generator-path-raised:' + type(e).__name__)
+                for rec in core.records:
+                    if rec['kind'] == 'ctva':
+                        out.ev('generator-path:direct-helper-calls-judged')
+                    judge(rec, lab.T, out, {'spec': spec, 'route': 'Generator._get_matching_class'})
+            decl.functions = saved.pop(c['name'])
+    finally:
+        for n, fs in saved.items():
+            lab.decls[n].functions = fs
+        cfg.dis.use_site_variance = False
+        cfg.dis.use_site_contravariance = False
+        core.records = []
+
+
 def cell_typelab(cell):
     from vf import boot, typelab
     boot.light()
@@ -404,6 +520,8 @@ def cell_typelab(cell):
                 judge(rec, lab.T, out, {'spec': spec})
         cfg.dis.use_site_variance = False
         cfg.dis.use_site_contravariance = False
+        if generic:
+            _generator_path(cell, spec, lab, generic, rng, core, out, U)
         if len(out.samples) < 2 and ctors:
             c, ctor = ctors[0]
             utils.random.r.seed(7)
@@ -467,6 +585,14 @@ def pipeline_plan(tier, seed):
     p = [{'lang': lang, 'n': n, 'chunk': 3 if tier == 'quick' else 10} for lang in LANGS]
     p += [{'lang': lang, 'n': n // 2, 'chunk': 3 if tier == 'quick' else 10, 'switches': [SWITCHES[1]], 'tag': 'nocontra'}
           for lang in LANGS]
+    # generation only (cheap): rare generator paths that call the helpers with their own pools, e.g.
+    # _get_matching_class -> _compute_type_variable_assignments (about 1 program in 40 reaches it);
+    # Java and Groovy are the languages with primitive builtins (P3)
+    q = tier == 'quick'
+    for lang in LANGS:
+        big = lang in ('java', 'groovy')
+        p.append({'lang': lang, 'n': (90 if big else 30) if q else (700 if big else 300), 'chunk': 15 if q else 50,
+                  'translate': False, 'inject': False, 'transformations': 0, 'tag': 'genonly'})
     return p
 
 
@@ -476,6 +602,7 @@ def finish(agg, tier, lab_events):
     agg.floor('calls:instantiate_parameterized_function', 3000 if q else 80000)
     agg.floor('P2-confirmed', 3000 if q else 80000)
     agg.floor('projections-introduced', 1500 if q else 40000)
+    agg.floor('generator-path:direct-helper-calls-judged', 300 if q else 5000)
     agg.floor('P4-checked', 500 if q else 15000)
     return agg.finish(
         rule='typelab: every generic class of the small family and of random tables (bounded, mutually dependent and '
